@@ -157,8 +157,7 @@ def plss_preprocess(
 def sub_scrubber(rgx, txt: str, default_ns: str, default_ew: str) -> str:
     # Only use ocr_scrub if the rgx being used is the ocr_scrub regex.
     ocr_scrub = rgx == pp_twprge_ocr_scrub
-    matches = rgx.finditer(txt)
-    for match in matches:
+    def _clean(match):
         clean_twprge = unpack_twprge(
             match,
             default_ns=default_ns,
@@ -166,8 +165,12 @@ def sub_scrubber(rgx, txt: str, default_ns: str, default_ew: str) -> str:
             ocr_scrub=ocr_scrub)
         # Tack on a space at the end to maintain a gap between this
         # Twp/Rge and whatever comes after it.
-        txt = txt.replace(match.group(0), clean_twprge + ' ')
-    return txt
+        return clean_twprge + ' '
+
+    # Replace each match where it was found. (Replacing every occurrence
+    # of the matched text would also rewrite the start of a later,
+    # longer match, which then could not be found anymore.)
+    return rgx.sub(_clean, txt)
 
 
 def reduce_whitespace(txt):
